@@ -188,8 +188,11 @@ int run_sharded(F&& body) {
         }
         candidate("crash", rx::to_text(g_sh->current), detail);
         g_sh->next_start = at + 1;
-        if (crashes > 20000) {
+        // each restart re-enumerates the space up to the case after the
+        // crash: a tree on which hundreds of cases crash is already decided
+        if (crashes > 300) {
             fprintf(stderr, "too many crashes\n");
+            g_sh->deadline_hit = 1; // the rest of the shard is not explored
             break;
         }
     }
